@@ -243,9 +243,45 @@ func TestReplay(t *testing.T) {
 	}
 	full := tracefmt.Thorough()
 	for pi, ph := range phases {
+		// connections whose handshake is sent BEFORE the registry changes and whose request is
+		// sent after it: the response counts the players online at the time of the request
+		type heldConn struct {
+			cp int
+			c  *mcwire.Conn
+		}
+		var held []heldConn
+		for _, cp := range []int{sup[len(sup)-1], sup[0], sup[len(sup)/2], 1} {
+			c, err := r.Dial()
+			if err != nil {
+				t.Fatal(err)
+			}
+			if err := c.WritePacket(0, rig.HandshakePayload(cp, "localhost", 25565, 1)); err != nil {
+				t.Fatal(err)
+			}
+			held = append(held, heldConn{cp, c})
+		}
+		time.Sleep(30 * time.Millisecond)
 		ph.do()
 		online := len(clients)
 		_ = pi
+		for _, hc := range held {
+			rec := tracefmt.Rec{"ev": "step", "send": "req", "payload": []int{}, "echo": []int{}}
+			if werr := hc.c.WritePacket(0x00, nil); werr != nil {
+				t.Errorf("held connection: write failed: %v", werr)
+				hc.c.Close()
+				continue
+			}
+			re, _ := react(hc.c)
+			rec["got"], rec["n"], rec["protocol"], rec["online"] = re.got, re.n, re.protocol, re.online
+			rec["wellformed"], rec["closed"] = re.wellformed, re.closed
+			if re.echo != nil {
+				rec["echo"] = tracefmt.Bytes(re.echo)
+			}
+			tw.Emit(tracefmt.Rec{"ev": "reset", "cp": hc.cp, "online": online, "phase": ph.name, "supported": sup, "max": max, "hist": -1, "held": true})
+			tw.Emit(rec)
+			runs++
+			hc.c.Close()
+		}
 		var mu sync.Mutex
 		var wg sync.WaitGroup
 		sem := make(chan struct{}, 8)
